@@ -107,6 +107,9 @@ def rules(ctx):
     ctx.rule('R02.9', "_get_bounds fills exactly the missing component from approximate_pubo_extrema", floor=3)
     ctx.rule('R02.10', "merged unseeded temporaries cannot allocate ancillas", floor=2)
     ctx.rule('R02.11', "a linear penalty is added only under a guard forcing its sign", floor=5)
+    ctx.rule('R02.13', "the receiving model is changed only by += / -= of penalty terms, the record helpers, nested "
+                       "constraint methods and ancilla takes - never by update / item assignment / other operators", floor=8)
+    ctx.rule('R02.14', "the constraint record is not shared between a model and its copies", floor=2)
     ctx.rule('R02.12', "slack registers are sized from -X only where X <= 0 is forced, and the unary-slack "
                        "shortcut (X - sum of slack bits)^2 only where min X >= 0 is forced", floor=3)
 
@@ -201,8 +204,74 @@ def rules(ctx):
     # ---------------------------------------------------------------- R02.12
     slack_guards(ctx, 'R02.12', list(meths.values()) + [P.func('_pcbo._special_constraints_le_zero')])
 
+    # ---------------------------------------------------------------- R02.13 / R02.14
+    merge_discipline(ctx, 'R02.13', list(meths.values()) + [P.func('_pcbo._special_constraints_eq_zero'),
+                                                            P.func('_pcbo._special_constraints_le_zero')])
+    record_not_shared(ctx, 'R02.14')
+
 
 # =====================================================================
+BAD_MERGE = {'update', 'clear', 'pop', 'popitem', 'setdefault', '__setitem__', '__delitem__', 'refresh', 'normalize',
+             'simplify', 'set_mapping', 'set_reverse_mapping', '__init__'}
+
+
+def merge_discipline(ctx, rid, fns):
+    R = ctx.res
+    for fn in fns:
+        X = R.self_name(fn) or fn.params[0]
+        bad = []
+        for n in ast.walk(fn.node):
+            if isinstance(n, ast.Call) and isinstance(n.func, ast.Attribute) and is_name(n.func.value, X) and n.func.attr in BAD_MERGE:
+                bad.append((n, "%s.%s(...) replaces / removes coefficients instead of adding the penalty" % (X, n.func.attr)))
+            elif isinstance(n, (ast.Assign, ast.AugAssign)):
+                for t in (n.targets if isinstance(n, ast.Assign) else [n.target]):
+                    if isinstance(t, ast.Subscript) and is_name(t.value, X):
+                        bad.append((n, "item assignment on the receiving model"))
+                    if isinstance(n, ast.AugAssign) and is_name(t, X) and not isinstance(n.op, (ast.Add, ast.Sub)):
+                        bad.append((n, "the receiving model is combined with `%s=`" % type(n.op).__name__))
+                    if isinstance(n, ast.Assign) and is_name(t, X):
+                        bad.append((n, "the receiving model name is rebound"))
+            elif isinstance(n, ast.Delete):
+                for t in n.targets:
+                    if isinstance(t, ast.Subscript) and is_name(t.value, X):
+                        bad.append((n, "item deletion on the receiving model"))
+        ctx.inst(rid, fn, 'merge discipline of %s' % fn.qual, not bad,
+                 "penalties only enter through += / -=" if not bad else
+                 "%s (line %s): terms already on the model are overwritten / lost, so the added function is not the penalty"
+                 % (bad[0][1], getattr(bad[0][0], 'lineno', '?')))
+
+
+def record_not_shared(ctx, rid):
+    """The PCBO/PCSO copy constructor takes the constraints through the copying getter (R19.3)."""
+    P, R = ctx.prog, ctx.res
+    init = P.func('PCBO.__init__')
+    sn = R.self_name(init)
+    va = init.node.args.vararg.arg if init.node.args.vararg else 'args'
+    g = cfg_of(init.node)
+    found = False
+    for n in g.stmts():
+        if isinstance(n, ast.Assign) and any(isinstance(t, ast.Attribute) and is_name(t.value, sn) and t.attr == '_constraints'
+                                              for t in n.targets):
+            facts = []
+            for tt, pol, o in g.edge_dominators(n):
+                facts += compare_atoms(tt, pol)
+            if any(f[0] == 'truthy' and 'isinstance(%s[0]' % va in f[1] for f in facts if len(f) == 2):
+                found = True
+                ok = src(n.value) == '%s[0].constraints' % va
+                ctx.inst(rid, init, n, ok,
+                         "the copy takes the constraints through the copying getter" if ok else
+                         "the copy constructor takes the constraints as `%s`: a model and its copy (copy(), arithmetic results) "
+                         "share constraint lists, so a constraint added to one is checked by the other's is_solution_valid"
+                         % src(n.value))
+    if not found:
+        ctx.inst(rid, init, 'copy branch', False, "copy branch of the constructor does not set the constraint record")
+    gt = P.func('PCBO.constraints')
+    rets = [r for r in walk_no_nested(strip_docstring(gt.node.body)) if isinstance(r, ast.Return)]
+    ok = bool(rets) and all(isinstance(r.value, ast.DictComp) and isinstance(r.value.value, ast.ListComp) for r in rets)
+    ctx.inst(rid, gt, rets[0] if rets else 'return', ok,
+             "the getter builds fresh lists" if ok else "the constraints getter does not build fresh per-relation lists")
+
+
 def slack_guards(ctx, rid, fns):
     for fn in fns:
         g = cfg_of(fn.node)
